@@ -114,6 +114,38 @@ Section Wire.
     let cc := crash_case_of (nthv 0 v) in
     let loads := map (fun st => as_opt (fun x => map dec_e (as_list x)) (nthv 4 st)) (as_list (nthv 2 (nthv 1 v))) in
     vbool (crash_ok (tab_eqb M) (cc_told cc) (cc_tnew cc) loads).
+
+  (* ---- the JSON laws on the implementation's decoder: a torn target file ----
+     case = (ops_old ops_delta ks): after the two flushes the target is overwritten with
+     its own prefixes of the lengths ks (0 = empty file) and loaded by a fresh provider;
+     k = -1 stands for the complete file. *)
+  Definition torn_table (c : val) : option (list E) :=
+    let ops_old := map dec_mop (as_list (nthv 0 c)) in
+    let ops_delta := map dec_mop (as_list (nthv 1 c)) in
+    let '(st1, d1) := fst (mrun M start (ops_old ++ [MFlush])) in
+    let '(st2, d2) := fst (mrun M (restart M d1, d1) (ops_delta ++ [MFlush])) in
+    match d2 with None => None | Some _ => Some (load M d2) end.
+
+  Definition torn_run (c : val) : val :=
+    match torn_table c with
+    | None => VL []
+    | Some t =>
+        VL (map (fun k => VL [k; vnone]) (as_list (nthv 2 c)) ++ [VL [VI (-1); vsome (vlist enc_e t)]])
+    end.
+
+  Definition torn_entry_ok (t : list E) (v : val) : bool :=
+    let k := as_int (nthv 0 v) in
+    let got := as_opt (fun x => map dec_e (as_list x)) (nthv 1 v) in
+    if k =? 0 then negb (is_some got)                                   (* empty_invalid *)
+    else if k <? 0 then opt_eqb (tab_eqb M) got (Some t)                (* roundtrip *)
+    else match got with None => true | Some t' => tab_eqb M t' t end.   (* prefix_safe *)
+
+  Definition torn_ok (v : val) : val :=
+    match torn_table (nthv 0 v) with
+    | None => vbool (match as_list (nthv 1 v) with [] => true | _ => false end)
+    | Some t => vbool (forallb (torn_entry_ok t) (as_list (nthv 1 v)) &&
+                       negb (match as_list (nthv 1 v) with [] => true | _ => false end))
+    end.
 End Wire.
 
 Definition dec_ux (v : val) : user * bool := (dec_user (nthv 0 v), as_bool (nthv 1 v)).
@@ -126,3 +158,7 @@ Definition x_C18_ucrash_run : val -> val := crash_run user_ops enc_user dec_ux.
 Definition x_C18_ucrash_ok : val -> val := crash_okv user_ops dec_user dec_ux.
 Definition x_C18_rcrash_run : val -> val := crash_run (route_ops url_ok_c18) enc_route dec_route.
 Definition x_C18_rcrash_ok : val -> val := crash_okv (route_ops url_ok_c18) dec_route dec_route.
+Definition x_C18_utorn_run : val -> val := torn_run user_ops enc_user dec_ux.
+Definition x_C18_utorn_ok : val -> val := torn_ok user_ops dec_user dec_ux.
+Definition x_C18_rtorn_run : val -> val := torn_run (route_ops url_ok_c18) enc_route dec_route.
+Definition x_C18_rtorn_ok : val -> val := torn_ok (route_ops url_ok_c18) dec_route dec_route.
